@@ -36,7 +36,9 @@ function makeRealm (seed, opts) {
 
   const ser = (v, d = 0) => {
     switch (typeof v) {
-      case 'string': return JSON.stringify(v)
+      // long strings (programs that double a string in a loop reach hundreds of megabytes) are
+      // abbreviated: length + both ends, so that logging stays cheap and the logs stay small
+      case 'string': return v.length <= 256 ? JSON.stringify(v) : JSON.stringify(v.slice(0, 48)) + '…' + JSON.stringify(v.slice(-48)) + '(len=' + v.length + ')'
       case 'number': return Object.is(v, -0) ? '-0' : String(v)
       case 'bigint': return v + 'n'
       case 'undefined': return 'undefined'
